@@ -27,6 +27,25 @@ def _sentinel_test_params(test: ast.AST) -> Dict[str, Set[str]]:
     return out
 
 
+def _sentinel_test(test: ast.AST):
+    """-> ({p: {S,...}}, edge on which p was GIVEN): `p is not S and p is not S2` -> 'true';  `p is S or p is S2` / `not (...)` -> 'false'"""
+    given = _sentinel_test_params(test)
+    if given:
+        return given, "true"
+    if isinstance(test, ast.UnaryOp) and isinstance(test.op, ast.Not):
+        inner, edge = _sentinel_test(test.operand)
+        return inner, ("false" if edge == "true" else "true") if inner else None
+    parts = test.values if isinstance(test, ast.BoolOp) and isinstance(test.op, ast.Or) else [test]
+    out: Dict[str, Set[str]] = {}
+    for p in parts:
+        if isinstance(p, ast.Compare) and len(p.ops) == 1 and isinstance(p.ops[0], ast.Is) and isinstance(p.left, ast.Name) \
+                and norm(p.comparators[0]) in SENTINELS:
+            out.setdefault(p.left.id, set()).add(norm(p.comparators[0]))
+        else:
+            return {}, None
+    return out, "false"
+
+
 def r03_1(run):
     for q, kernel_attr in ((f"{OB}.UnaryUfunc.__call__", "numpy_ufunc"), (f"{OB}.BinaryUfunc.__call__", "numpy_ufunc"),
                            (f"{OB}.Sequential.__call__", "numpy_func")):
@@ -44,7 +63,9 @@ def r03_1(run):
             ok = v is not None and lead == [f"{t}.data" for t in v.params]
             run.ob("R03.1", loc(fi, k), fi.short, f"kernel receives the operands' arrays in order {lead}", ok,
                    "x.data of each recorded variable, positionally" if ok else "operands crossed / not the tensors' arrays")
-        tests = {n: _sentinel_test_params(s) for n, s in cfg.stmt.items() if cfg.label[n] == "If"}
+        tests2 = {n: _sentinel_test(s) for n, s in cfg.stmt.items() if cfg.label[n] == "If"}
+        tests2 = {n: v_ for n, v_ in tests2.items() if v_[0]}
+        other = {"true": "false", "false": "true"}
         for p in params:
             for k in kcalls:
                 nk = cfg.stmt_node_containing(k)
@@ -65,7 +86,7 @@ def r03_1(run):
                             and s.targets[0].slice.value == p and norm(s.value) == p]
                     if sets:
                         ns = cfg.node_for(sets[0])
-                        guard_ok = any(p in tp and cfg.edge_dominates(n, "true", ns) for n, tp in tests.items())
+                        guard_ok = any(p in tp and cfg.edge_dominates(n, edge, ns) for n, (tp, edge) in tests2.items())
                         c1 = build_cfg(run, fi, {f"{p} is not {s}": True for s in SENTINELS})
                         w = c1.all_paths_hit(ENTRY, {c1.node_for(sets[0])}, exits=(c1.stmt_node_containing(k),))
                         ok = guard_ok and w is None and reaching_defs(cfg, p, ns) == [ENTRY]
@@ -76,7 +97,7 @@ def r03_1(run):
                 if done:
                     continue
                 # not passed: only acceptable where p provably holds a sentinel
-                ok = any(set(tp) == {p} and cfg.edge_dominates(n, "false", nk) for n, tp in tests.items())
+                ok = any(set(tp) == {p} and cfg.edge_dominates(n, other[edge], nk) for n, (tp, edge) in tests2.items())
                 run.ob("R03.1", loc(fi, k), fi.short, f"kernel call without {p}= is only reached when {p} holds a sentinel", ok,
                        f"call lies on the false edge of `{p} is not <sentinel> [and ...]`" if ok else
                        f"option {p} is silently ignored by {fi.short}")
